@@ -89,6 +89,22 @@ void runStore(const json& ep, const char* kind, MakeFn makeFn, SnapFn snapFn, Mu
             mutFn(*slots.at(op.at("slot").get<int>()), op);
             o.kv("slot", op.at("slot").get<int>());
         }
+        else if (name == "copyref")
+        {
+            // a reference to the source's payload obtained BEFORE the copy is made, written through afterwards:
+            // the copy must keep the value the source had when it was copied (copies share no state)
+            const int d = op.at("dst").get<int>(), s = op.at("src").get<int>();
+            if constexpr (std::is_same_v<P, Packet>)
+            {
+                Payload& h = slots.at(s)->getPayload();
+                if (op.value("assign", false) && slots.count(d))
+                    *slots.at(d) = *slots.at(s);
+                else
+                    slots[d] = std::make_unique<P>(*slots.at(s));
+                h.setRawPayloadType(static_cast<uint8_t>(op.value("ptvia", 9)));
+            }
+            o.kv("dst", d).kv("src", s);
+        }
         else if (name == "selfset")
         {
             // the object's own payload given back to it (aliasing): the value must not change
